@@ -1,7 +1,7 @@
 (* Properties_C03 — session and login state machine follows the PKCS#11 rules.
    Only statements, each closed by [exact] of a lemma proved elsewhere, and Print Assumptions. *)
 From Coq Require Import List NArith Bool.
-From SoftHSM Require Import Gen_Const Gen_Pure Defs Core AccessFacts StepFacts Invariants SessionSpec.
+From SoftHSM Require Import Gen_Entry Gen_Token EntryModel Gen_Const Gen_Pure Defs Core AccessFacts StepFacts Invariants SessionSpec.
 Import ListNotations.
 Local Open Scope N_scope.
 
@@ -79,3 +79,26 @@ Theorem C03_inittoken_refused_with_session : forall (s : state) (k : N) (pin : o
   step s (OInitToken (TTok k) pin label) = (s, RRv CKR_SESSION_EXISTS).
 Proof. exact inittoken_refused_with_session. Qed.
 Print Assumptions C03_inittoken_refused_with_session.
+
+(* ---- the model's session / login decisions are the code's decisions: the return code of the model step equals the REGENERATED
+   SoftHSM::C_Login composed with the regenerated Token::loginSO / Token::loginUser (gen/Gen_Entry.v, gen/Gen_Token.v) applied to the
+   abstraction of the model state, and the guards of SessionManager::openSession are those of the model's C_OpenSession --------------- *)
+Theorem C03_login_chain_is_code : forall (s : state) (h : N) (x : session) (t : token) (utype : N) (p : bytes),
+  st_init s = true -> get_session s h = Some x -> alookup (s_tok x) (st_tokens s) = Some t ->
+  rv_of (snd (step s (OLogin h utype (Some p)))) =
+  Some (C_Login.app (C_Login.mk (fun _ => 1)
+          (fun _ => if existsb (fun q => (s_tok (snd q) =? s_tok x) && negb (s_rw (snd q))) (st_sessions s) then 1 else 0)
+          0 0 1 1
+          (fun _ => Token_loginSO.app (token_loginso_env t p)) (fun _ => Token_loginUser.app (token_loginuser_env t p))
+          (fun _ => 0) h utype 1 (blen p))).
+Proof. exact login_chain_is_code. Qed.
+Print Assumptions C03_login_chain_is_code.
+Theorem C03_opensession_model_is_code : forall (s : state) (k flags : N),
+  st_init s = true -> amem k (st_tokens s) = true ->
+  match snd (step s (OOpen (TTok k) flags)) with
+  | RRv rv => rv = SessionManager_openSession.app (opensession_env s k flags)
+  | RHandle _ => SessionManager_openSession.app (opensession_env s k flags) = CKR_OK
+  | _ => False
+  end.
+Proof. exact opensession_model_is_code. Qed.
+Print Assumptions C03_opensession_model_is_code.
